@@ -216,11 +216,24 @@ def run(chk):
                                     + [(chk.rng.randrange(1, 4), chk.rng.randrange(60000, 600000)) for _ in range(20)])):
         vcases.append(["case %d" % (800000 + j), "vfround %d %d %d %d %d" % (chk.rng.randrange(1, 99999), ne, ln, j % 2 if j < 10 else chk.rng.randint(0, 1),
                                                                              chk.rng.choice([4096, 513, 100000]))])
+    # ... and the tag-editor workflow: a list that came out of the decoder is appended to with the public add calls, written and read again
+    for j in range(40 if chk.tier == "quick" else 600):
+        n0 = j if j < 20 else chk.rng.choice([0, 1, 15, 16, 17, 31, 32, 33, 100, 255, 256, 1000])
+        vcases.append(["case %d" % (810000 + j), "editrt %d %d %d" % (chk.rng.randrange(1, 99999), n0, chk.rng.choice([1, 2, 3, 16, 17, 40]))])
     vres = vlib.run_harness_only("c16", vcases, variant="san", timeout=1200)
     vpages = {}
     for r in vres:
         if r["c"] is None or (r["rc_c"] != 0 and r["err_c"]):
             crash.append(r)
+            continue
+        if r["ops"][1].startswith("editrt"):
+            line = next((l for l in r["c"] if l.startswith("editrt ")), "editrt missing")
+            f = dict(x.split("=", 1) for x in line.split(" ")[1:] if "=" in x)
+            t = r["ops"][1].split(" ")
+            if f.get("rc") != "0" or f.get("same") != "1" or f.get("n") != str(int(t[2]) + int(t[3])):
+                r["m"] = None
+                ofail.append((r, "edit: a decoded list extended with vorbis_comment_add/add_tag is not read back: " + line))
+            chk.note_case(r["ops"][1], True, {"ops": r["ops"], "answer": line})
             continue
         line = next((l for l in r["c"] if l.startswith("vfround ")), "vfround missing")
         f = dict(x.split("=", 1) for x in line.split(" ")[1:] if "=" in x)
@@ -241,7 +254,7 @@ def run(chk):
                           {"ops": [o[:160] for o in r["ops"][:4]], "answer": [l[:160] for l in r["c"][1:4]]})
     chk.coverage["rule"] = ("seeded generator: comment lists (0..3000 entries, 0..300000 bytes, arbitrary bytes, NULs, empty, "
                             "tag-like with case variants), add/add_tag/flush, malformed packets (length fields at remaining±1, "
-                            "2^31, 2^32-1; truncation at every field; framing bit; preamble), queries; lists of up to 4000 entries / 300 kB written by the encoder into an Ogg stream (comment header spanning 1..6 pages) and read back through ov_open_callbacks + ov_comment, seekable and streaming. distinct = distinct first "
+                            "2^31, 2^32-1; truncation at every field; framing bit; preamble), queries; lists of up to 4000 entries / 300 kB written by the encoder into an Ogg stream (comment header spanning 1..6 pages) and read back through ov_open_callbacks + ov_comment, seekable and streaming; decoded lists of 0..1000 entries extended with 1..40 vorbis_comment_add / add_tag calls, written and read again. distinct = distinct first "
                             "3 answer lines of the implementation")
     chk.coverage["distribution"] = kinds
     chk.coverage["disagreements"] = len(dis)
